@@ -167,7 +167,9 @@ def lattice3(M, ms, K, seed=0, orientations=2):
     offs = [(0.5, 0.5), (0.31, 0.67), (0.73, 0.19), (0.11, 0.43), (0.87, 0.59)]
     off = offs[seed % len(offs)]
     ev = []
-    Rs = [np.eye(3), GENERIC_R, euler(2.2, 0.4, 0.9)][:orientations]
+    # generic orientations first: event3 puts particle 3 exactly along -z, where the helicity azimuth of a
+    # spinning particle is undefined (that configuration belongs to the edge alphabets, not to the lattices)
+    Rs = [GENERIC_R, euler(2.2, 0.4, 0.9), np.eye(3)][:orientations]
     for s12, s23 in dalitz_lattice(M, ms[0], ms[1], ms[2], K, off):
         p = event3(M, ms[0], ms[1], ms[2], s12, s23)
         for R in Rs:
